@@ -2,7 +2,7 @@ SPECIFICATION SpecMC
 CONSTANTS
   Variant = "ref"
   Loadables <- PoolCore
-  RDatas <- DatasKinds
+  RDatas <- DatasStd
   OpKinds = {"Load", "Render", "Get", "Validate", "Remove", "Clear", "SetBasePath", "Analyze"}
   ArgNames = {"base", "A", "B", "G"}
   Entries = {"doc", "tpl", "rnd"}
